@@ -565,8 +565,8 @@ func (w *world) replicas() {
 				w.rec.Violate("C14", "replica_halt", kind, "replica (%s) of %s: %s", kind, c.Cfg.Name, halt)
 				return
 			}
-			if class, diff := node.CompareDigests(od, d, op, p); class != "" {
-				w.rec.Violate("C14", "replica_divergence", class, "replica (%s) of %s diverges: %s", kind, c.Cfg.Name, diff)
+			for _, dv := range node.CompareDigestsAll(od, d, op, p) {
+				w.rec.Violate("C14", "replica_divergence", dv.Class, "replica (%s) of %s diverges: %s", kind, c.Cfg.Name, dv.Detail)
 			}
 		}
 		d, p, halt := node.ReplayStream(s, 0)
